@@ -170,7 +170,12 @@ def split_iter(src, sep=None, maxsplit=None):
     split_count = 0
     for s in src:
         if maxsplit is not None and split_count >= maxsplit:
-            def sep_func(x): return False
+            # no splits left: the rest goes into the last group as is,
+            # except that str.split(None, n) drops the separators
+            # leading that remainder
+            if not (sep is None and not cur_group and sep_func(s)):
+                cur_group.append(s)
+            continue
         if sep_func(s):
             if sep is None and not cur_group:
                 # If sep is none, str.split() "groups" separators
